@@ -1,5 +1,7 @@
 // target: src/heads.rs
 // labels: heads.insert.* heads.encode.* heads.decode.* heads.merge.*
+// tier: quick
+// bound: head sets with up to 3 of 4 authors, timestamps in {0, 1, 2, u64::MAX}, every size limit 0..=140 (exhaustive)
 // Concrete small-domain check (NOT a proof) of the parts of src/heads.rs that neither Verus nor Kani could take:
 // `AuthorHeads::insert` (BTreeMap entry API; its max-merge contract is ASSUMED by units U-heads-merge / U-heads-store) and
 // `AuthorHeads::encode` (BTreeSet::into_iter().rev() + postcard). Exhaustive over all head sets with up to 3 authors out of
